@@ -17,7 +17,7 @@ import (
 )
 
 func (fe *FE) isJoinBlock(b *ssa.BasicBlock) bool {
-	if !fe.C.MergeJoins || len(b.Preds) < 2 {
+	if !fe.C.MergeJoins || len(b.Preds) < 2 || b.Parent() != fe.Fn {
 		return false
 	}
 	if _, isHead := fe.loops[b]; isHead {
@@ -90,7 +90,7 @@ func (fe *FE) compatKey(st *State) string {
 		}
 	}
 	sort.Ints(open)
-	fmt.Fprintf(&sb, "O%v;P%v;R%s;E%p;", open, st.paniced, st.recoverV, st.loopEnt)
+	fmt.Fprintf(&sb, "O%v;P%v;R%s;E%p;F%v;", open, st.paniced, st.recoverV, st.loopEnt, st.frames)
 	for _, d := range st.defers {
 		fmt.Fprintf(&sb, "D%p/%s/%s;", d.instr, d.native, d.ref)
 	}
